@@ -95,7 +95,7 @@ func c13(r *Report, s *Sem) {
 	}
 	// only close sites
 	for _, site := range p.chanCloseSites(p.LimeFuncs()) {
-		if site.field == a.doneField || (site.field == nil && topLevel(site.fn) == a.receiver) {
+		if site.field == a.doneField || (site.field == nil && enclosedBy(site.fn, a.receiver)) {
 			ok := site.fn == closure
 			r.Check(R1, "func "+fnName(site.fn)+" / close of the done signal", p.instrPos(site.in), ok, "only the receiver's deferred closure may close it")
 		}
@@ -234,7 +234,8 @@ func c13(r *Report, s *Sem) {
 				return
 			}
 			for _, e := range sessionEmissions(s, "client") {
-				if e.fn == g && e.alloc != nil {
+				// the emission is made by a helper FinishSession calls, or by FinishSession itself
+				if (e.fn == g || ssa.Instruction(e.call) == in) && e.alloc != nil {
 					for _, st := range storesInto(e.alloc, "State") {
 						if cs, _ := constString(stripConv(st.Val)); cs == "finishing" {
 							emit = in
